@@ -174,7 +174,7 @@ theorem lexDecorated_map (a b : List (Key × Value)) :
       obtain ⟨k1, v1⟩ := x
       obtain ⟨k2, v2⟩ := y
       simp only [List.map, lexDecorated, lexCmp, entryCmp, ih]
-      cases Key.cmp k1 k2 <;> simp
+      cases Key.cmpK k1 k2 <;> simp
       cases cmp v1 v2 <;> simp
 
 theorem cmpList_eq (xs ys : List Value) : cmpList xs ys = lexCmp cmp xs ys := by
@@ -215,13 +215,13 @@ theorem cmp_arr (xs ys : List Value) : cmp (.arr xs) (.arr ys) = lexCmp cmp xs y
 
 /-- Maps compare by their key-sorted entry lists, entries as `(key, value)` tuples. -/
 theorem cmp_map (x y : List (Key × Value)) :
-    cmp (.map x) (.map y) = lexCmp entryCmp (sortEntries x) (sortEntries y) := by
+    cmp (.map x) (.map y) = lexCmp entryCmp (sortEntriesK x) (sortEntriesK y) := by
   unfold cmp
   simp only [partialCmp, numPartialCmp, isInteger, Bool.false_and, Bool.false_eq_true, if_false]
   rw [decorate_eq]
-  have : sortEntries (x.map (fun e => (e.1, cmp e.2))) = (sortEntries x).map (fun e => (e.1, cmp e.2)) := by
-    unfold sortEntries
-    exact sortBy_map Key.cmp (fun e : Key × Value => (e.1, cmp e.2)) (fun e => e.1) (fun e => e.1)
+  have : sortEntriesK (x.map (fun e => (e.1, cmp e.2))) = (sortEntriesK x).map (fun e => (e.1, cmp e.2)) := by
+    unfold sortEntriesK
+    exact sortBy_map Key.cmpK (fun e : Key × Value => (e.1, cmp e.2)) (fun e => e.1) (fun e => e.1)
       (fun _ => rfl) x
   rw [this, lexDecorated_map]
 
@@ -292,8 +292,8 @@ theorem cmp_bytes (x y : List Nat) : cmp (.bytes x) (.bytes y) = lexCmp cmpNat x
 theorem cmp_none : cmp .none .none = .eq := by simp [cmp, partialCmp]
 theorem cmp_undef : cmp .undef .undef = .eq := by simp [cmp, partialCmp]
 
-theorem entryCmp_eq_pairCmp : entryCmp = pairCmp Key.cmp cmp := by
-  funext a b; simp only [entryCmp, pairCmp]; cases Key.cmp a.1 b.1 <;> rfl
+theorem entryCmp_eq_pairCmp : entryCmp = pairCmp Key.cmpK cmp := by
+  funext a b; simp only [entryCmp, pairCmp]; cases Key.cmpK a.1 b.1 <;> rfl
 
 /-! ### inversion: the rank determines the kind -/
 
@@ -371,11 +371,11 @@ theorem laws_step (n : Nat) (ih : OrdLaws (Dn n) cmp) : OrdLaws (Dn (n + 1)) cmp
     · have pl : OrdLaws (fun p : Key × Value => True ∧ Dn n p.2) entryCmp := by
         rw [entryCmp_eq_pairCmp]; exact pairCmp_laws Key.cmp_laws ih
       refine (((lexCmp_laws pl).comap
-        (fun v : Value => match v with | .map x => sortEntries x | _ => [])).mono
+        (fun v : Value => match v with | .map x => sortEntriesK x | _ => [])).mono
         (D' := fun a => Dn (n + 1) a ∧ a.typeOrder = r) ?_).of_eq ?_
       · intro a ⟨⟨wa, sa⟩, ha⟩
         obtain ⟨es, rfl⟩ := inv_map (ha.trans hM)
-        show ∀ e ∈ sortEntries es, True ∧ Dn n e.2
+        show ∀ e ∈ sortEntriesK es, True ∧ Dn n e.2
         intro e he
         have he' : e ∈ es := (mem_sortBy _ e es).1 he
         exact ⟨trivial, wa.map_mem e he', by have := size_lt_of_mem_entries he'; omega⟩
